@@ -108,8 +108,8 @@ def run_real(spec, downstream=True, order_no=0):
     from dagrt.codegen.analysis import verify_code, CodeGenerationError
     dag = build_dag(spec, order_no)
     out = {"accepted": None, "error": None, "downstream": None}
-    signal.signal(signal.SIGALRM, _alarm)
-    signal.alarm(10)
+    signal.signal(signal.SIGVTALRM, _alarm)      # CPU time
+    signal.setitimer(signal.ITIMER_VIRTUAL, 10)
     try:
         try:
             verify_code(dag)
@@ -130,7 +130,7 @@ def run_real(spec, downstream=True, order_no=0):
         if out["accepted"] and downstream:
             out["downstream"] = run_downstream(dag)
     finally:
-        signal.alarm(0)
+        signal.setitimer(signal.ITIMER_VIRTUAL, 0)
     return out
 
 
@@ -440,7 +440,7 @@ def main(tier, seed):
     run.assumptions = [
         "statement ids are unique within a method; statements are Nop, SwitchPhase and flag assignments",
         "well-formedness oracle (same-phase targets, Kahn acyclicity, switch targets, single flag definition per phase) in vf/checks/c10.py",
-        "'never hangs' is checked with a 10 s alarm per method",
+        "'never hangs' is checked with a 10 s CPU-time alarm per method",
         "this property has no data dimension after the shape is fixed: the solver only realises the choice bits (bounded-exhaustive exploration)",
     ]
     return run.finish(
